@@ -242,6 +242,17 @@ def run_case(case, seed):
                             r.le(key + ':residual-vs-repeats', res[q_], prev[q_], 1e-6 * (1 + np.linalg.norm(yd[q_])), 'repeats %d row %d' % (reps, q_))
                     prev = res
             STATE['mon'] = None
+        # rcond = 0 (no cut-off at all; int and float zero) is a value like any other: same result as the negligible cut-off 1e-15
+        with r.op(key + ':rcond-zero:call'):
+            with quiet():
+                ref_ = reg.arr(x, y, basis, guess, repeats=2, rcond=1e-15, progress=False)
+            for z_ in (0, 0.0):
+                with quiet():
+                    s0_ = reg.arr(x, y, basis, guess, repeats=2, rcond=z_, progress=False)
+                if isinstance(s0_, list) and len(s0_) == len(ref_) and all(meta_problem(t_) is None for t_ in s0_):
+                    for q_ in range(len(ref_)):
+                        fa, fb = dn(s0_[q_]).reshape(-1) @ P, dn(ref_[q_]).reshape(-1) @ P
+                        r.close(key + ':rcond-zero:fitted-values', fa, fb, 1e-6, 'rcond=%r vs rcond=1e-15, row %d' % (z_, q_))
         r.true(key + ':guess-unchanged', unchanged(guess, sG), 'initial guess modified')
         r.true(key + ':data-unchanged', np.array_equal(x, x0) and np.array_equal(y, y0))
     return r
